@@ -259,6 +259,19 @@ class ExcValue(tuple):
         return o
 
 
+class NodeInt(int):
+    """an integer scalar node used as a key / index: it is an int (truth, comparisons, arithmetic as such); `.ayns.native_value`
+    is its plain value"""
+
+    def __new__(cls, value, name=None):
+        o = int.__new__(cls, value)
+        o.name = name or 'key%d' % value
+        return o
+
+    def __repr__(self):
+        return '<int node %d>' % int(self)
+
+
 class Yielded(Exception):
     """evaluation reached a `yield` (used to evaluate the set-up half of a context manager)"""
 
@@ -845,6 +858,14 @@ class FDE:
                 call._fde_ok = True
                 return call
             return v_
+        if isinstance(base, NodeInt):
+            if attr == 'ayns':
+                return ('nodeint_ayns', base)
+            raise Unsupported('attribute %s of an integer scalar node' % attr)
+        if isinstance(base, tuple) and len(base) == 2 and base[0] == 'nodeint_ayns':
+            if attr in ('native_value', 'value'):
+                return int(base[1])
+            raise Unsupported('attribute ayns.%s of an integer scalar node' % attr)
         if isinstance(base, EnumMember) and attr in ('name', 'value'):
             return getattr(base, attr)
         if isinstance(base, ExcValue) and base.attrs is not None:
@@ -1445,6 +1466,14 @@ class FDE:
             for x in it_:
                 acc = self._apply(args[0], [acc, x], {}, e)
             return acc
+        if unparse(f) in ('collections.deque', 'deque') and not (isinstance(f, ast.Name) and f.id in env) and len(args) <= 2 \
+                and (not args or isinstance(args[0], (list, tuple)) or type(args[0]).__name__ in _ITER_TYPES) and set(kwargs) <= {'maxlen'}:
+            # a deque filled once from an iterable: the (last maxlen) elements, as a list (the input is consumed completely)
+            items_ = list(_guarded_iter(args[0])) if args else []
+            ml_ = kwargs.get('maxlen', args[1] if len(args) > 1 else None)
+            if ml_ is not None and not isinstance(ml_, int):
+                raise Unsupported('deque with a non-concrete maxlen')
+            return items_ if ml_ is None else items_[len(items_) - ml_:] if ml_ and len(items_) > ml_ else ([] if ml_ == 0 else items_)
         if unparse(f) in _PURE_ITER and not kwargs and not (isinstance(f, ast.Name) and f.id in env) \
                 and all(isinstance(a, (list, tuple, dict, set, int)) or type(a).__name__ in _ITER_TYPES for a in args):
             return _PURE_ITER[unparse(f)](*args)
